@@ -447,3 +447,32 @@ Proof.
     rewrite E. cbn [negb]. apply IHl. intros z Hz. apply Hb. right. exact Hz. }
   apply H. intros y Hy. exact Hy.
 Qed.
+
+(* ====================================================================== *)
+(* 5. Pattern preprocessing: whatever Mutagen accepts, it reads as Docker   *)
+(*    does ('!' is split off before the text is cleaned, on both sides).    *)
+(* ====================================================================== *)
+Lemma prep_agree raw x :
+  match raw with c :: _ => Ascii.eqb c "#"%char = false | [] => True end ->
+  mutagen_prep raw = Some x -> docker_prep raw = Some x.
+Proof.
+  intros Hc. unfold mutagen_prep, docker_prep.
+  destruct (existsb _ raw); [discriminate|].
+  assert (Hh : match raw with c :: _ => Ascii.eqb c "#"%char | [] => false end = false)
+    by (destruct raw; [reflexivity|exact Hc]).
+  rewrite Hh.
+  destruct (null (trim raw)); [discriminate|].
+  set (neg := match trim raw with c :: _ => Ascii.eqb c ch_bang | [] => false end).
+  set (p := if neg then trim (tl (trim raw)) else trim raw).
+  destruct (null p); [discriminate|].
+  destruct (str_eqb (clean p) [ch_slash]); [discriminate|].
+  intros H. exact H.
+Qed.
+
+Lemma prep_examples :
+  mutagen_prep (str_of "!./vendor/keep") = Some (true, str_of "vendor/keep")
+  /\ mutagen_prep (str_of "!tmp/../build/out") = Some (true, str_of "build/out")
+  /\ mutagen_prep (str_of "! /a//b/.") = Some (true, str_of "a/b")
+  /\ mutagen_prep (str_of "/") = None
+  /\ docker_prep (str_of "!./vendor/keep") = Some (true, str_of "vendor/keep").
+Proof. vm_compute. repeat split. Qed.
